@@ -124,6 +124,12 @@ def do_check(prop: str, root: str, tier: str, write=True, quiet=False, audit=Tru
         }
         if audit_res is not None:
             ev["coverage"]["sensitivity_audit"] = audit_res
+        if tier == "thorough":
+            try:
+                from sa.rules import sweeps
+                ev["coverage"]["sweeps_informational"] = sweeps.run_all(ctx)
+            except Exception as e:   # the sweeps never decide anything: report, do not fail
+                ev["coverage"]["sweeps_informational"] = {"error": repr(e)}
         os.makedirs(os.path.dirname(evidence_path(prop)), exist_ok=True)
         with open(evidence_path(prop), "w") as fh:
             json.dump(ev, fh, indent=1, sort_keys=False)
